@@ -3,7 +3,7 @@
    Property theorems only. *)
 From Coq Require Import ZArith List Bool String.
 Import ListNotations.
-Require Import SV.Life.Model SV.Life.Inv SV.Life.Trace SV.Life.GenTie SV.C01.Gen_states.
+Require Import SV.Life.Model SV.Life.Inv SV.Life.Trace SV.Life.Observer SV.Life.GenTie SV.C01.Gen_states.
 
 (* the documented graph, written out as in the property text *)
 Definition documented_edges : list (pstate * pstate) :=
@@ -36,6 +36,18 @@ Theorem c01_lifecycle_graph :
 Proof. exact TI_run. Qed.
 Print Assumptions c01_lifecycle_graph.
 
+(* The observer's view of the same fact: the states process i is reported in, read off the
+   notifications alone (oldest first: STOPPED, then the state named by each notification), form a
+   walk in the documented graph - consecutive reports differ and each is reached by a documented
+   edge or is UNKNOWN - that starts in STOPPED and ends in the state the process is in. *)
+Theorem c01_observer_walk :
+  forall U pconfs gconfs ops i,
+    let w := Model.run U pconfs gconfs ops in
+    walk_ok (seen (out w) i) /\ hd STOPPED (seen (out w) i) = sts w i /\
+    last (seen (out w) i) STOPPED = STOPPED.
+Proof. exact observer_run. Qed.
+Print Assumptions c01_observer_walk.
+
 Theorem c01_eight_states :
   (forall s : pstate, In s (map snd model_states)) /\
   gen_process_states = map (fun ns => (fst ns, pstate_code (snd ns))) model_states.
@@ -57,5 +69,6 @@ Print Assumptions c01_assertions_match_source.
 Example c01_example :
   let w := Model.run 2 [mkConf 1 1 2 15 999 true ARUnexpected [0] false false CmdOk 0%nat] [mkG 999 [0%nat]]
                      [mkPass 10 [] [] []; mkPass 14 [] [] []; mkPass 16 [ARpc 1 (RStop 0%nat false)] [] [2%Z]] in
-  sts w 0%nat = UNKNOWN /\ List.length (out w) = 8%nat.
-Proof. vm_compute. split; reflexivity. Qed.
+  sts w 0%nat = UNKNOWN /\ List.length (out w) = 8%nat /\
+  seen (out w) 0%nat = [UNKNOWN; STOPPING; RUNNING; STARTING; STOPPED].
+Proof. vm_compute. repeat split; reflexivity. Qed.
